@@ -15,6 +15,7 @@ import (
 	"sort"
 	"strings"
 	"sync"
+	"time"
 
 	"github.com/MontFerret/ferret/pkg/compiler"
 	"github.com/MontFerret/ferret/pkg/runtime"
@@ -79,6 +80,7 @@ func (c *Closer) Compare(o core.Value) int64 {
 	}
 	return 1
 }
+
 // Close reports an error for every third id (and for any repeated close): a failing
 // Close must not keep the remaining closables from being closed
 func (c *Closer) Close() error {
@@ -124,6 +126,9 @@ func enter(ctx context.Context, name string, args []core.Value) *Session {
 	s.mu.Unlock()
 	if hit && cancel != nil {
 		cancel()
+		// the call in which the cancellation arrives takes a moment to complete: whatever reacts to the
+		// cancelled context from another goroutine gets to run before the call returns its value
+		time.Sleep(2 * time.Millisecond)
 	}
 	if fail {
 		switch kind {
